@@ -549,6 +549,84 @@ def real_canonical_runs(rep, rs, nruns, steps):
     return ntr
 
 
+def hamiltonian_after_refusals(rep, rs, ncases):
+    """The Hamiltonian clause after the user's geometric check refused earlier trajectories of the trial: the total-energy
+    change that decides is that of the trajectory actually proposed (kinetic energy of the momenta it started from).  The
+    move is driven by hand on a real context, the shipped criteria decides with a scripted uniform placed between the
+    ratio of the observed total-energy change and the ratio the criteria would get from a stale kinetic energy."""
+    from ase.calculators.lj import LennardJones
+    from ase.units import kB
+
+    from quansino.integrators.displacement import Verlet
+    from quansino.mc.contexts import HamiltonianDisplacementContext
+    from quansino.mc.criteria import HamiltonianCanonicalCriteria
+    from quansino.moves.displacement import HamiltonianDisplacementMove
+    from quansino.utils.dynamics import maxwell_boltzmann_distribution
+    from scripted_rng import ScriptedGenerator
+
+    n = 0
+    for it in range(ncases):
+        nref = it % 3
+        T = float(rs.choice([300.0, 1200.0]))
+        at = Atoms("Ar3", positions=[[0, 0, 0], [3.9, 0, 0], [1.9, 3.3, 0.3]] + rs.rand(3, 3) * 0.2, cell=[30, 30, 30], pbc=False)
+        at.calc = LennardJones(sigma=3.4, epsilon=0.0104, rc=12.0, smooth=True)
+        at.get_potential_energy()
+        # the atoms come with momenta of their own (hotter or colder than the bath): whatever they were, the kinetic energy
+        # that enters the test is that of the momenta the proposed trajectory started from
+        at.set_momenta(rs.randn(3, 3) * np.sqrt(at.get_masses() * kB * T * float(rs.choice([0.0, 6.0, 25.0])))[:, None])
+        g = ScriptedGenerator(int(rs.randint(1, 10**6)))
+        ctx = HamiltonianDisplacementContext(at, g)
+        ctx.temperature = T
+        ctx.save_state()
+        e0 = at.get_potential_energy()
+        starts = []
+
+        def dist(c, starts=starts):
+            maxwell_boltzmann_distribution(c)
+            starts.append(c.atoms.get_kinetic_energy())
+
+        class RecVerlet(Verlet):   # observes the kinetic energy every trajectory really starts with
+            def integrate(self, context, starts=starts):
+                starts.append(context.atoms.get_kinetic_energy())
+                return super().integrate(context)
+
+        starts.clear()
+        mv = HamiltonianDisplacementMove(distribution=maxwell_boltzmann_distribution, operation=RecVerlet(dt=4.0, max_steps=6))
+        left = [nref]
+
+        def check(*_a, left=left):
+            if left[0] > 0:
+                left[0] -= 1
+                return False
+            return True
+
+        mv.check_move = check
+        mv.max_attempts = 5
+        try:
+            if not mv(ctx):
+                continue
+            e1, k1 = at.get_potential_energy(), at.get_kinetic_energy()
+            k_start = starts[-1]     # the trajectory that was proposed is the last one integrated
+            dh_true = (e1 + k1) - (e0 + k_start)
+            dh_code = (e1 + k1) - (e0 + float(ctx.last_kinetic_energy))
+            la_true, la_code = -dh_true / (kB * T), -dh_code / (kB * T)
+            if abs(la_true - la_code) > 1e-9 and min(la_true, la_code) < 0:
+                lu = 0.5 * (min(la_true, 0.0) + min(la_code, 0.0))      # between the two ratios
+            else:
+                lu = min(la_true, 0.0) - 0.3                              # just below the ratio: must be accepted
+            g.script("random", float(np.exp(lu)))
+            verdict = bool(HamiltonianCanonicalCriteria().evaluate(ctx))
+        except Exception as ex:  # noqa: BLE001
+            rep.violation(f"raise:hamiltonian-after-refusals:{type(ex).__name__}", f"a Hamiltonian trial with {nref} refused trajectories raised {ex!r}", {"refused": nref})
+            continue
+        n += 1
+        rep.count(("hamiltonian-after-refusals", it), nontrivial=nref > 0)
+        want = lu < min(la_true, 0.0) or la_true >= 0
+        if verdict != want:
+            rep.violation("verdict:hamiltonian:after-refused-trajectory", f"Hamiltonian trial after {nref} refused trajectories: total-energy change of the proposed trajectory {dh_true:.6f} eV (ln A = {la_true:.4f}), ln u = {lu:.4f}: criteria returned {verdict}, rule says {want} (the kinetic energy used is {float(ctx.last_kinetic_energy):.6f}, the trajectory started with {k_start:.6f})", {"refused": nref, "T": T})
+    return n
+
+
 def run(tier: str) -> int:
     rep = Report("C02", tier, "model_checking")
     rs = np.random.RandomState(rep.seed % 2**32)
@@ -728,6 +806,7 @@ def run(tier: str) -> int:
     nrun = first_trial_reference(rep, rs, 12 if tier == "quick" else 120)
     rep.add(first_trial_runs=nrun, sequences=nseq, default_criteria_cases=default_criteria_layer(rep))
     rep.add(real_run_trials=real_grand_canonical_runs(rep, rs, 4 if tier == "quick" else 24, 60 if tier == "quick" else 200))
+    rep.add(hamiltonian_after_refusals=hamiltonian_after_refusals(rep, rs, 12 if tier == "quick" else 90))
     rep.add(real_canonical_trials=real_canonical_runs(rep, rs, 4 if tier == "quick" else 24, 40 if tier == "quick" else 150))
     rep.add(states=r.distinct, transitions=r.generated, traces_validated_against_impl=n_real, exhaustive=True, lattice_points=len(pts), hydrostatic_pairs=nh, offlattice=noff,
             guard_band_discards=guard, isotension_points_skipped_strain_definition=skipped_strain,
